@@ -137,3 +137,53 @@ def irset(r, toggle: bool = None, special: bool = None, density: float = None, l
         hexcode = "".join(r.choice("0123456789ABCDEF") for _ in range(rest))
         waves.append({"Key": k, "Para": para, "HexCode": hexcode})
     return {"IRSetID": rid, "OnOffType": 1 if toggle else 0, "IRWaveList": waves}
+
+
+# ------------------------------------------------------------------ status broadcasts
+
+MODELS = ["MINI", "POWER_PLUG", "TOUCH", "V2_ESP", "V2_QCA", "V4", "BREEZE", "RUNNER", "RUNNER_MINI"]
+RID_CHARS = string.ascii_uppercase + string.digits
+
+
+def broadcast_desc(r, model: str, i: int, tag: str) -> Dict[str, Any]:
+    """A device description over the full field domains; i drives the per-byte sweeps."""
+    ip = [r.randrange(256) for _ in range(4)]
+    mac = [r.randrange(256) for _ in range(6)]
+    pos = i % 10
+    val = (i // 10) % 256
+    if pos < 4:
+        ip[pos] = val
+    else:
+        mac[pos - 4] = val
+    name = name_fitting(r, 32, 1)
+    if i % 7 == 0:
+        # exactly 32 bytes (no padding at all)
+        pool = r.choice(list(POOLS))
+        name = ""
+        while len(name.encode()) < 32:
+            c = r.choice(POOLS[pool])
+            if len((name + c).encode()) <= 32:
+                name += c
+            elif len(name.encode()) < 32:
+                name += "x"
+    d: Dict[str, Any] = {
+        "model": model, "device_id": tag, "device_key": f"{r.randrange(256):02x}", "name": name,
+        "ip": ".".join(map(str, ip)), "mac": ":".join(f"{b:02X}" for b in mac),
+        "state": ("ON", "OFF")[(i // 3) % 2],
+    }
+    edge16 = [0, 1, 219, 220, 221, 255, 256, 65535, 2600]
+    edge_t = [0, 1, 59, 60, 3599, 3600, 86399, 5400]
+    d["power"] = r.choice(edge16) if r.random() < 0.15 else r.randrange(65536)
+    d["remaining"] = r.choice(edge_t) if r.random() < 0.15 else r.randrange(86400)
+    d["auto_shutdown"] = r.choice(edge_t) if r.random() < 0.15 else r.randrange(86400)
+    d["position"] = i % 101
+    d["direction"] = ("STOP", "UP", "DOWN")[(i // 101 + i) % 3]
+    d["mode"] = ("AUTO", "DRY", "FAN", "COOL", "HEAT")[i % 5]
+    d["fan"] = ("AUTO", "LOW", "MEDIUM", "HIGH")[(i // 5) % 4]
+    d["swing"] = ("ON", "OFF")[(i // 20) % 2]
+    d["temp_tenths"] = r.choice(edge16) if r.random() < 0.15 else r.randrange(65536)
+    d["target"] = r.randrange(256)
+    d["remote_id"] = "".join(r.choice(RID_CHARS) for _ in range(8))
+    if d["state"] == "OFF" and r.random() < 0.3:
+        d["state_code"] = r.choice([0, 0, 2, 3, 0x10, 0xFF])  # anything but 01 is "off"
+    return d
